@@ -296,6 +296,40 @@ def run(ctx):
         c = tr["cfg"]
         ctx.case(key=(fn, m, P.name, str(P.dtype), tuple(P.y0.shape), ft, xt, mi, json.dumps(o, sort_keys=True)))
     rej = ctx.validate_traces("Trace_RootLoop.tla", "Trace_RootLoop.cfg", traces, shards=16)
+
+    def m_earlier(t):
+        r = t["ev"][-1]
+        if r["a"] == "ret" and not r["warned"] and t["cfg"]["kind"] != "opt" and r["j"] >= 2:
+            r["j"] -= 1                                      # the iterate before the tested one comes back
+            return t
+
+    def m_above(t):
+        r = t["ev"][-1]
+        if r["a"] == "ret" and not r["warned"] and t["cfg"]["kind"] != "opt":
+            r["res"] = "above"                               # the returned tensor does not meet the tolerance
+            return t
+
+    def m_worse(t):
+        r = t["ev"][-1]
+        if r["a"] == "ret" and not r["warned"] and t["cfg"]["kind"] == "opt":
+            r["fle"] = False                                 # silent return with a larger objective
+            return t
+
+    def m_test_missing(t):
+        ts = [j for j, e in enumerate(t["ev"]) if e["a"] == "test"]
+        if len(ts) >= 2:
+            del t["ev"][ts[0]]                               # one stop test is missing from the record
+            return t
+
+    def m_silent(t):
+        r = t["ev"][-1]
+        if r["a"] == "ret" and r["warned"] and t["cfg"]["kind"] != "opt":
+            r["warned"] = False
+            r["res"], r["fle"], r["near_ref"] = "below", True, True   # (even with perfect verdicts: the protocol forbids the silence)
+            return t
+    ctx.binding_selftest("Trace_RootLoop.tla", "Trace_RootLoop.cfg", traces, rej,
+                         [("earlier iterate returned", m_earlier), ("tolerance not met", m_above), ("objective larger", m_worse),
+                          ("stop test missing", m_test_missing), ("warning missing", m_silent)])
     bytid = {t["tid"]: t for t in traces}
     for tid, matched, total in rej:
         t = bytid[tid]
